@@ -56,16 +56,28 @@ def main():
     oc = Outcome()
     if changed:
         oc.notes.append("AST fingerprint changed for: %s (sampling escalated)" % ", ".join(changed))
+    cov = common.LineCov()
+    cov.start()
     try:
         mod.run(oc, tier=tier, seed=seed,
                 model_available=lean.build_ok, escalate=escalate)
     except Infra as e:
         say("INFRA: %s" % e)
         sys.exit(2)
+    except common.PropertyFailure as e:
+        oc.violations.append(e.payload)
     except Exception:
         say("INFRA: the harness raised an unexpected exception (no verdict):")
         say(traceback.format_exc())
         sys.exit(2)
+
+    cov.stop()
+    try:
+        rep = cov.report(getattr(mod, "MODELLED", []))
+        if rep:
+            oc.extra["line_coverage_of_modelled_code"] = rep
+    except Exception:
+        oc.notes.append("line coverage report failed: %s" % traceback.format_exc(limit=1))
 
     # ---- step 3/4: verdict
     known = common.load_known()
